@@ -10,12 +10,18 @@
        callbacks and interrupts included, and leave equivalent component states and wakeup tables.
        Schedules exist: [run_sched] executes any strategy, and the first-answers-first and
        last-answers-first strategies really produce different traces ([C08_schedules_example]).
-   PARTIAL: (2) is for one scheduler level (flat simulations) and at the granularity of the
-   ticker's answers; system simulations and the bus below (per-topic queues, latency) are explored
-   on the delaying bus (codes 21/22); Model/NSim.v is compared with Model/Sim.v on every flat case
-   of that exploration (code 23).  Property theorems only. *)
-From TV Require Import Base Model.Wiring Model.Ticker Model.Component Model.Sim Model.NSim Oracle.SimCheck
-  Proofs.WiringP Proofs.TickerP Proofs.SimP Proofs.EqvP Proofs.InlineP Proofs.InlineScopeP Proofs.ScheduleP.
+   (3) ... and equal what the deterministic whole-simulation model computes
+       ([C08_every_schedule_is_sim], [C08_sim_run_is_every_schedule]): Model/Sim.v folds the
+       components of a level in its topological order; seen as a trace of the ticker that fold is
+       one well-formed run, so by (2) every schedule gives every device exactly the observations
+       of Model/Sim.v -- the model all whole-simulation theorems (C02, C03, C05, C09, C10) are
+       stated on and every run of the real schedulers on the in-memory bus is compared with.
+   PARTIAL: (2) and (3) are for one scheduler level (flat simulations) and at the granularity of
+   the ticker's answers; system simulations and the bus below (per-topic queues, latency) are
+   explored on the delaying bus (codes 21/22); Model/NSim.v is also compared with Model/Sim.v by
+   evaluation on every flat case of that exploration (code 23).  Property theorems only. *)
+From TV Require Import Base Model.Wiring Model.Ticker Model.Component Model.Sim Model.SimTime Model.Inline Model.NSim Oracle.SimCheck
+  Proofs.WiringP Proofs.TickerP Proofs.SimP Proofs.EqvP Proofs.InlineP Proofs.InlineScopeP Proofs.InlineLatestP Proofs.ScheduleP Proofs.SimTraceP.
 
 (* two arbitrary runs of the same tick (same wiring, time, roots), possibly incomplete and
    under different answer orders, whose answers are given by one deterministic function of
@@ -81,6 +87,38 @@ Proof.
   apply (C08_whole_simulation conns comps (table_dev tab) rank Hss Hrank (table_dev_nd tab) (table_dev_ext tab) initial script sA obA sB obB HA HB).
 Qed.
 
+(* (3) every schedule computes what Model/Sim.v computes.  [flat_wfb]: a level of devices listed in
+   a topological order of its single-source wiring; stimuli on listed devices *)
+Theorem C08_every_schedule_is_sim : forall cfg (devf : devfun) fuel initial script sA obA,
+  flat_wfb (level_of cfg top) = true ->
+  (forall c n t i, NoDup (keys (fst (devf c n t i)))) ->
+  (forall c n t i i', NoDup (keys i) -> NoDup (keys i') -> eqv i i' -> devf c n t i = devf c n t i') ->
+  (forall c w, In (IStim c w) script -> In c (map fst (l_order (level_of cfg top)))) ->
+  nrun (l_conns (level_of cfg top)) (map fst (l_order (level_of cfg top))) devf initial script sA obA ->
+  forall d, obs_rel (dev_obs d obA) (dev_obs d (snd (sim_script_from_start cfg devf fuel initial script))).
+Proof.
+  intros cfg devf fuel initial script sA obA Hwf Hnd Hext Hok HA d.
+  pose proof (nrun_is_sim cfg devf fuel Hnd Hext (flat_wfb_sound _ Hwf) initial script sA obA Hok HA) as T.
+  destruct (sim_script_from_start cfg devf fuel initial script) as [sS obS]. apply T.
+Qed.
+
+(* in particular the simulation-time master of Model/SimTime.v, on which the run theorems of C09 and
+   C10 are stated: whatever it computes in n ticks up to a horizon is what every schedule of the same
+   number of ticks gives every device *)
+Theorem C08_sim_run_is_every_schedule : forall cfg (devf : devfun) fuel n initial horizon,
+  flat_wfb (level_of cfg top) = true ->
+  (forall c k t i, NoDup (keys (fst (devf c k t i)))) ->
+  (forall c k t i i', NoDup (keys i) -> NoDup (keys i') -> eqv i i' -> devf c k t i = devf c k t i') ->
+  exists k, forall sA obA,
+    nrun (l_conns (level_of cfg top)) (map fst (l_order (level_of cfg top))) devf initial (repeat ITick k) sA obA ->
+    forall d, obs_rel (dev_obs d obA) (dev_obs d (snd (fst (sim_run cfg devf n fuel initial horizon)))).
+Proof.
+  intros cfg devf fuel n initial horizon Hwf Hnd Hext.
+  destruct (sim_run cfg devf n fuel initial horizon) as [[sS obS] fin] eqn:E.
+  destruct (sim_run_is_every_schedule cfg devf fuel Hnd Hext (flat_wfb_sound _ Hwf) n initial horizon sS obS fin E) as [k Hk].
+  exists k. intros sA obA HA. apply (Hk sA obA HA).
+Qed.
+
 (* every strategy that answers dispatched components one at a time yields such a run *)
 Theorem C08_strategies_are_schedules : forall conns comps devf pick fuel initial script s ob,
   nrun_from_start conns comps devf pick fuel initial script = Some (s, ob) -> nrun conns comps devf initial script s ob.
@@ -100,7 +138,11 @@ Example C08_schedules_example :
   | Some (_, obA), Some (_, obB) =>
       length obA = 23%nat /\ length obB = 23%nat /\
       firstn 5 (map obs_comp obA) = [3; 4; 5; 6; 7]%positive /\ firstn 5 (map obs_comp obB) = [3; 4; 5; 7; 6]%positive /\
-      In (4%positive, 650) (map fst obA)
+      In (4%positive, 650) (map fst obA) /\
+      (* the deterministic model on the same script: 23 updates as well, and it is in the theorem's scope *)
+      (let cfg := [(1%positive, {| l_order := map (fun c => (c, KDev)) ex_comps; l_conns := ex_conns |})] in
+       flat_wfb (level_of cfg top) = true /\
+       length (snd (sim_script_from_start cfg (table_dev ex_tab) 8 0 ex_script)) = 23%nat)
   | _, _ => False
   end.
 Proof. vm_compute. repeat split; try reflexivity. do 15 right. left. reflexivity. Qed.
